@@ -191,6 +191,8 @@ class Executor:
         self.solver.set("timeout", int(feas_timeout_ms))
         self.solver.set("random_seed", seed)
         self.timeout_ms = timeout_ms
+        self.feas_timeout_ms = feas_timeout_ms
+        self.seed = seed
         self.fresh_n = 0
         self.stats = {"steps": 0, "forks": 0, "solver_checks": 0, "inlined": {}, "models_used": {}}
 
@@ -202,7 +204,13 @@ class Executor:
         if z3.is_false(c):
             return False
         self.stats["solver_checks"] += 1
-        r = self.solver.check(*(pc + [c]))
+        # a fresh solver per query: assumptions internalised by earlier (possibly 256-bit) queries must not slow this one
+        sv = z3.Solver()
+        sv.set("timeout", int(self.feas_timeout_ms))
+        sv.set("random_seed", self.seed)
+        sv.add(*pc)
+        sv.add(c)
+        r = sv.check()
         if r == z3.unknown:
             self.stats["feasibility_unknown"] = self.stats.get("feasibility_unknown", 0) + 1
             return True
